@@ -33,7 +33,7 @@ EVAL_SRC = ['1 + 2', '[1,\n2]\n3', '1 $ 2', 'a = 1\nb = 2\nc = = 3', '(1', '1 +'
             'round(1 / 0.0000000000000000000000000000000000000001 ** 99999999)', '0 ** 0', '(0 - 8) ** 0.5', '(0 - 2) ** 1.5 + 1', 'round(x9, 2)', 'round(float("inf"))', 'round(float("nan"), 2)', 'floor(float("-inf"))', 'int(float("nan"))', '10 ** 1000000000', 'len = 7; len']
 NAMES_SRC = ['price * qty + fee(region)', 'alpha + beta ? gamma', 'a\n(b,\nc', '"s" # x', '%a b% . c ( d']
 NAMES_MODES = ['full', 'abandon1', 'unstarted', 'deferred']
-OMITTED_SRC = ['x = 1', 'x', 'x += 1', 'len = 7; len', 'len("ab")', 'u = 3', 'u', 'f = v => v + 1', 'f(1)', '"a  b" | len', '"a b" | len']
+OMITTED_SRC = ['x = 1', 'x', 'x += 1', 'len = 7; len', 'len("ab")', 'u = 3', 'u', 'f = v => v + 1', 'f(1)', '"a  b" | len', '"a b" | len', 'pop([1, 2, 3])', '[1, 2] | push(3) | len']
 NAMES_KINDS = ['fresh', 'P', 'Q', 'none']
 BATTERY = [('parse', 'a\nb'), ('eval', '[1,\n2] + [3]', 'fresh', None), ('names', 'p + q\nr', 'full'),
            ('eval', 'x = 2; x * y', 'B', None), ('parse', '{"k": (1,\n2)}\nz')]
